@@ -209,6 +209,9 @@ class SInt(object):
             return engine().nl_mul(self, o)
         if isinstance(o, int):
             return mk_int(_mul_const(self.t, int(o)))
+        if isinstance(o, bytes) and len(set(o)) == 1:
+            # b'\0' * n with symbolic n: a region of symbolic length with known fill
+            return SRegion(self * len(o), kind='bytes', tag=('fill', o[0]))
         if isinstance(o, (bytes, bytearray, SBuf, list, tuple, str)):
             return o * engine().concretize(self)
         return NotImplemented
@@ -793,12 +796,21 @@ class SRegion(object):
     non-negative bounds; `off`/`n` of the result are terms relative to the root buffer.
     """
 
-    def __init__(self, n, off=0, root=None, kind='bytearray'):
+    def __init__(self, n, off=0, root=None, kind='bytearray', tag=None):
         self.n = n
         self.off = off
         self.root = root if root is not None else self
         self.kind = kind
+        self.tag = tag         # what the content is, where known (e.g. ('zeros',), ('field',))
         self.writes = []       # (off, n) regions written, on the root
+
+    def __mul__(self, k):
+        return SRegion(self.n * k, kind='bytes', tag=self.tag)
+    __rmul__ = __mul__
+
+    def ljust(self, width, fill=b' '):
+        """Padded copy: the original content followed by max(0, width-n) fill bytes."""
+        return SRegion(Max(self.n, width), kind='bytes', tag=('ljust', self, width, bytes(fill)))
 
     def __len__(self):
         return engine().concretize(self.n)
